@@ -1,9 +1,15 @@
 package harness
 
 import (
+	"context"
 	"fmt"
+	"runtime"
+	"sync"
 	"testing"
+	"testing/synctest"
 	"time"
+
+	"github.com/bool64/cache"
 )
 
 // TestC11 mixes never-expiring, fresh, recently expired and long-expired entries and runs cleanup
@@ -14,7 +20,8 @@ func TestC11(t *testing.T) {
 	cf.Rule = "configs: TimeToLive in {default, 1h, Unlimited}, DeleteExpiredAfter in {default 24h, 1m, 1h}, no eviction limit; " +
 		"sequences of 6..40 ops from {write (context TTL none/+1h/-1h/1s/-30h/+100h), read, walk, len, cleanup via VerifCleanup, " +
 		"janitor = sleeping across 1..3 real janitor intervals} with sleeps 0..30h; every cleanup bracketed by Walks; 3 backends; " +
-		"non-trivial = a cleanup that removed something and kept something; distinct = distinct Gallina term"
+		"non-trivial = a cleanup that removed something and kept something; distinct = distinct Gallina term; plus, per backend, rounds of a per-call-TTL write racing a cleanup cycle " +
+		"on an UnlimitedTTL cache of 120 never-expiring entries followed by two quiet cycles (frozen clock, real parallelism), recorded in the order the observations dictate"
 
 	h := int64(time.Hour)
 	confs := []BConf{
@@ -60,8 +67,149 @@ func TestC11(t *testing.T) {
 		}
 	}
 
+	addC11Race(t, e, cf)
+
 	if err := cf.Write(e); err != nil {
 		t.Fatal(err)
+	}
+}
+
+// addC11Race lets a write with a per-call TTL race a cleanup cycle on an UnlimitedTTL cache ("occasional per-call
+// TTLs") and then runs two more cycles with nothing else going on: whichever way the race went, the long-expired
+// entry must be gone afterwards. Frozen fake clock, real parallelism (synctest bubble). The rounds are recorded as
+// sequential cases in the order the observations dictate (the entry is in the walk after the racing cycle: the
+// cycle came first; otherwise the write came first); rounds whose outcome is unremarkable are sampled.
+func addC11Race(t *testing.T, e *Env, cf *CaseFile) {
+	h := int64(time.Hour)
+	conf := BConf{TTL: -1, Jitter: -1, DelAfter: h, Name: "c"}
+	rounds := e.Pick(250, 2500)
+	fill := 120
+
+	for _, fl := range Flavours {
+		emitted, suspicious := 0, 0
+
+		for round := 0; round < rounds && suspicious < 3; round++ {
+			var r BRun
+
+			x := []byte(fmt.Sprintf("late-%d", round))
+			interesting := false
+
+			synctest.Test(t, func(t *testing.T) {
+				st := NewStats()
+				r.Stats, r.Hash = st, NewHashTable(fl)
+				b := NewBackend(fl, conf.Config(st))
+
+				defer b.Close()
+
+				ctx := context.Background()
+				now := time.Now().UnixNano()
+				old := cache.WithTTL(ctx, -30*time.Hour, false)
+				add := func(o BOp, res Res) {
+					if o.K != nil {
+						r.Hash.Note(o.K)
+					}
+
+					r.Ops, r.Results = append(r.Ops, o), append(r.Results, res)
+				}
+
+				for i := 0; i < fill; i++ {
+					k := []byte(fmt.Sprintf("forever-%d", i))
+					_ = b.Write(ctx, k, 1)
+					add(BOp{Kind: "write", K: k, V: 1, Now: now}, Res{Kind: "unit"})
+				}
+
+				arm := []byte("old")
+				_ = b.Write(old, arm, 2)
+				add(BOp{Kind: "write", K: arm, V: 2, TTL: -30 * h, Now: now}, Res{Kind: "unit"})
+
+				w0 := b.Walk()
+
+				var (
+					wg    sync.WaitGroup
+					start = make(chan struct{})
+				)
+
+				wg.Add(2)
+
+				go func() {
+					defer wg.Done()
+					<-start
+					b.Cleanup()
+				}()
+				go func() {
+					defer wg.Done()
+					<-start
+
+					for i := 0; i < round%40; i++ { // vary the offset of the write into the cycle
+						runtime.Gosched()
+					}
+
+					_ = b.Write(old, x, 3)
+				}()
+
+				close(start)
+				wg.Wait()
+
+				w1 := b.Walk()
+				wx := BOp{Kind: "write", K: x, V: 3, TTL: -30 * h, Now: now}
+				inW1 := false
+
+				for _, w := range w1.Walk {
+					if string(w.K) == string(x) {
+						inW1 = true
+					}
+				}
+
+				add(BOp{Kind: "walk"}, w0)
+
+				if inW1 { // the cycle had passed the entry's shard before the write landed
+					add(BOp{Kind: "cleanup", Now: now, Removed: removedKeys(w0, w1)}, Res{Kind: "unit"})
+					add(wx, Res{Kind: "unit"})
+				} else {
+					add(wx, Res{Kind: "unit"})
+					add(BOp{Kind: "cleanup", Now: now, Removed: append(removedKeys(w0, w1), x)}, Res{Kind: "unit"})
+				}
+
+				add(BOp{Kind: "walk"}, w1)
+
+				prev := w1
+
+				for i := 0; i < 2; i++ { // nothing else is going on any more
+					b.Cleanup()
+
+					w := b.Walk()
+					add(BOp{Kind: "cleanup", Now: now, Removed: removedKeys(prev, w)}, Res{Kind: "unit"})
+					add(BOp{Kind: "walk"}, w)
+					prev = w
+				}
+
+				for _, w := range prev.Walk {
+					if string(w.K) == string(x) {
+						interesting = true // a long-expired entry survived two quiet cycles
+					}
+				}
+
+				if inW1 {
+					cf.Count("race/"+fl+"/cycle_first", 1)
+				} else {
+					cf.Count("race/"+fl+"/write_first", 1)
+				}
+			})
+
+			if interesting {
+				suspicious++
+			}
+
+			if interesting || emitted < 1 {
+				if !interesting {
+					emitted++
+				}
+
+				cf.Add("("+fl+", "+r.CoqCase(conf)+")", fmt.Sprintf("race/%s/survivor=%v", fl, interesting),
+					map[string]any{"flavour": fl, "conf": conf, "scenario": "TTL write racing a cleanup cycle, then two quiet cycles",
+						"ops": r.Ops[fill:], "results_tail": r.Results[len(r.Results)-3:]}, true)
+			}
+		}
 	}
 }
 
